@@ -1383,7 +1383,8 @@ def adapt_class_type(
     value, serialize, instantiate_classes, sub_add_kwargs, prev_val=None, skip_args=0, partial_classes=False
 ):
     prev_val = subclass_spec_as_namespace(prev_val)
-    value = subclass_spec_as_namespace(value)
+    # work on a copy of the branches: a Union subtype that fails must not modify the value seen by the next subtype
+    value = subclass_spec_as_namespace(value).clone()
     val_class = import_object(value.class_path)
     parser = ActionTypeHint.get_class_parser(val_class, sub_add_kwargs, skip_args=skip_args)
 
